@@ -7,7 +7,9 @@
         10 DuplicateWithIndex zs
      ty  0 int, 1 string, 2 float64 — the element type the harness instantiates
          the generic function at (values are an injective renaming of the
-         integers on the wire); the model is the same for these three.
+         integers on the wire); the model is the same for these three, and for
+         4 *int (the harness's pointers 2k, 2k+1 point to equal ints; == is
+         pointer identity, so the renaming is still injective).
          3 float64 WITH NaN and signed zeros (stream `nan`, harness/c11nan.go):
          the words are float CODES (C11_ModelNaN.v: n, negz_code, nan_code), the
          model is the generic transcription at [feq], the key functions are
